@@ -13,7 +13,7 @@ import (
 // DocMutations is the catalogue of document mutations; at most one kind is applied per document
 // so that a disagreement can be attributed.
 var DocMutations = []string{"none", "whitespace", "key-case", "key-escaped", "dup-key", "unknown-key", "null-at", "wrong-kind", "num-form", "num-boundary",
-	"array-resize", "empty-container", "string-escapes", "nested-unknown"}
+	"array-resize", "empty-container", "string-escapes", "nested-unknown", "quoted-value"}
 
 type docMut struct {
 	r      *rand.Rand
@@ -143,6 +143,16 @@ func (m *docMut) write(sb *strings.Builder, n *oracle.Node, depth int) {
 			sb.WriteString(wrongKinds[m.r.Intn(len(wrongKinds))])
 			m.done = true
 			return
+		case "quoted-value":
+			// the value's own text inside a JSON string (what the ,string option reads)
+			if depth > 0 {
+				var inner strings.Builder
+				sub := &docMut{r: m.r, kind: "none", target: -1}
+				sub.write(&inner, n, depth)
+				sb.WriteString(quote(inner.String()))
+				m.done = true
+				return
+			}
 		case "empty-container":
 			if n.Kind == 'o' || n.Kind == 'a' {
 				sb.WriteString(map[byte]string{'o': "{}", 'a': "[]"}[n.Kind])
